@@ -75,6 +75,8 @@ class RefMixin:
                 collected.append(e[3])
                 if e[1] in by_src:
                     by_src[e[1]].append(e[3])
+            elif k in ("in", "out") and e[1] != "S":
+                continue        # a side branch (fan-out scenarios): not the consumer behind N
             elif k == "in":
                 for x in flat(e[3]):
                     delivered.add(x)
@@ -274,6 +276,26 @@ class RefChain(_GateFailures, RefMixin, PipeScenario):
             return up.map_async(f, parallelism=a[0])
         return super().build_node(up, spec)
 
+    def build(self):
+        if self.params.get("fan"):
+            # fan-out at the entry point: a synchronous side branch attached *first*
+            from streamz import Stream
+            p = self.params
+            self.src = Stream(asynchronous=True, loop=self.ioloop)
+            self.side = self.src.sink(self.make_sink_fn("sync", "F"))
+            node = self.src
+            self.nodes = []
+            for spec in p["nodes"]:
+                node = self.build_node(node, spec)
+                self.nodes.append(node)
+            self.last = node
+            self.attach_sink(node)
+            self.make_producers()
+            if p.get("marks"):
+                self.clock_marks(p["marks"])
+            return
+        super().build()
+
     def make_producers(self):
         p = self.params
         items = p.get("items") or list(range(1, p["n"] + 1))
@@ -334,9 +356,10 @@ def factory(key):
     prop = key[0]
     if key[1] == "chain":
         _, _, node, kind, mode, n, fail = key[:7]
-        items = key[7] if len(key) > 7 else None
+        items = key[7] if len(key) > 7 and isinstance(key[7], tuple) else None
+        fan = 1 if (len(key) > 7 and key[7] == "fan") else 0
         return lambda: RefChain(prop=prop, nodes=(node,), kind=kind, mode=mode, n=n, fail=fail,
-                                items=list(items) if items else None)
+                                items=list(items) if items else None, fan=fan)
     _, _, join, kind, mode, n, fail = key
     return lambda: RefJoin(prop=prop, join=join, left="", right="", kind=kind, mode=mode, n=n, fail=fail)
 
@@ -370,6 +393,9 @@ def plan(ctx, prop="C04"):
             jobs.append(((prop, "chain", node, "future", "await", 2, 1), 1))
     for j in JOINS:
         jobs.append(((prop, "join", j, "future", "await", 2, 0), 1))
+    # fan-out at the entry point: synchronous branch first, then the holding node / slow consumer
+    for node in ("direct", "map", "buffer:1", "delay:1", "partition:2", "latest", "sliding_window:2", "map_async:1"):
+        jobs.append(((prop, "chain", node, "future", "await", 2, 1 if prop == "C04" else 0, "fan"), 1 if node not in ("delay:1",) else 0))
     return jobs
 
 
